@@ -137,7 +137,16 @@ class Hist:
     def insert(self, rng, boxes, mode, with_data, next_payload):
         n = len(boxes)
         data = list(range(next_payload, next_payload + n))
-        self.ops.append({"op": "insert", "mode": mode, "n": n, "data": bool(with_data)})
+        # boxes as other numpy dtypes (a later batch of integer coordinates as an int array, a float32 batch): the boxes
+        # that were inserted are the values of that array, earlier batches must keep their float64 values
+        dt = "float64"
+        if n and rng.random() < 0.12:
+            if np.all(boxes == np.round(boxes)) and np.abs(boxes).max() < 2 ** 31:
+                dt = str(rng.choice(["int64", "int32"]))
+            else:
+                dt = "float32"
+            boxes = np.ascontiguousarray(boxes.astype(dt))
+        self.ops.append({"op": "insert", "mode": mode, "n": n, "data": bool(with_data), "dtype": dt})
         if mode == "single":
             for b, d in zip(boxes, data):
                 if with_data:
@@ -150,7 +159,7 @@ class Hist:
             else:
                 self.tree.insert_aabbs(boxes, pre_insertion_methode=mode)
         for b, d in zip(boxes, data):
-            self.model.append((np.array(b), d if with_data else None))
+            self.model.append((np.array(b, dtype=float), d if with_data else None))
         return next_payload + n
 
 
